@@ -384,6 +384,61 @@ theorem reserved_names_rejected {defs : KV} {files : List KV} {r : J}
           · cases hv
   · cases h
 
+private def exDefs : KV :=
+  .cons "simulation_settings_default.yml"
+      (.obj (.cons "parameter_level" (.str "simulation_settings") (.cons "version" (.str "4.0") (.cons "n" (.int 2) .nil))))
+  (.cons "m_default_mobile.yml"
+      (.obj (.cons "parameter_level" (.str "methods") (.cons "version" (.str "4.0")
+        (.cons "method_name" (.str phStr) (.cons "deployment_type" (.str "mobile")
+        (.cons "t" (.str phInt) (.cons "years" (.list (.cons (.str phInt) .nil)) .nil)))))))
+  (.cons "virtual_world_default.yml"
+      (.obj (.cons "parameter_level" (.str "virtual_world") (.cons "version" (.str "4.0")
+        (.cons "a" (.int 1) (.cons "b" (.int 2) .nil)))))
+  (.cons "p_default.yml"
+      (.obj (.cons "parameter_level" (.str "programs") (.cons "version" (.str "4.0")
+        (.cons "program_name" (.str "d") (.cons "method_labels" (.list .nil) .nil)))))
+  (.cons "outputs_default.yml"
+      (.obj (.cons "parameter_level" (.str "outputs") (.cons "version" (.str "4.0") .nil))) .nil))))
+
+private def exM : KV :=
+  .cons "parameter_level" (.str "methods") (.cons "method_name" (.str "M")
+    (.cons "deployment_type" (.str "mobile") .nil))
+private def exP : KV :=
+  .cons "parameter_level" (.str "programs") (.cons "program_name" (.str "P")
+    (.cons "method_labels" (.list (.cons (.str "M") .nil)) .nil))
+private def exV : KV := .cons "parameter_level" (.str "virtual_world") (.cons "a" (.int 5) .nil)
+
+/-- non-vacuity of `methods_installed`, `no_placeholder_left`, `reserved_names_rejected`: a small
+complete intake that is accepted (method installed on the mobile defaults, placeholders gone) -/
+example : intake exDefs [exP, exM, exV] = .ok
+    (.obj (.cons "parameter_level" (.str "simulation_settings")
+     (.cons "version" (.str "4.0")
+     (.cons "n" (.int 2)
+     (.cons "virtual_world" (.obj (.cons "parameter_level" (.str "virtual_world")
+     (.cons "version" (.str "4.0")
+     (.cons "a" (.int 5)
+     (.cons "b" (.int 2)
+     .nil)))))
+     (.cons "outputs" (.obj (.cons "parameter_level" (.str "outputs")
+     (.cons "version" (.str "4.0")
+     .nil)))
+     (.cons "programs" (.obj (.cons "P" (.obj (.cons "parameter_level" (.str "programs")
+     (.cons "version" (.str "4.0")
+     (.cons "program_name" (.str "P")
+     (.cons "method_labels" (.list (.cons (.str "M") .nil))
+     (.cons "methods" (.obj (.cons "M" (.obj (.cons "parameter_level" (.str "methods")
+     (.cons "version" (.str "4.0")
+     (.cons "method_name" (.str "M")
+     (.cons "deployment_type" (.str "mobile")
+     (.cons "t" .null
+     (.cons "years" (.list .nil)
+     .nil)))))))
+     .nil))
+     .nil))))))
+     .nil))
+     .nil))))))) := by
+  rfl
+
 /-- the reserved-name test itself -/
 theorem reserved_table :
     isReserved "none" = true ∧ isReserved "None" = true ∧ isReserved "NULL" = true ∧
